@@ -568,6 +568,8 @@ package service
 //@      ==> raw[KCtx(hexDecode(s))] == enc_RequestContext(mapGet_Map_Str_RequestContext(data.RequestContexts, s))
 //@ loop 3 invariant others_untouched: forall id Bytes :: {raw[KCtx(id)]} (forall s Str :: {mapHas_Map_Str_RequestContext(data.RequestContexts, s)} mapHas_Map_Str_RequestContext(data.RequestContexts, s) ==> hexDecode(s) != id)
 //@      ==> raw[KCtx(id)] == old(raw)[KCtx(id)]
+//@ loop 3 invariant written_contexts_come_from_the_file: forall id Bytes :: {raw[KCtx(id)]} raw[KCtx(id)] == old(raw)[KCtx(id)] ||
+//@      (exists s Str :: mapHas_Map_Str_RequestContext(data.RequestContexts, s) && raw[KCtx(id)] == enc_RequestContext(mapGet_Map_Str_RequestContext(data.RequestContexts, s)))
 //@ ensures [C19] withdraw_addresses_imported: forall s Str :: {mapHas_Map_Str_Bytes(data.WithdrawAddresses, s)} mapHas_Map_Str_Bytes(data.WithdrawAddresses, s) &&
 //@      (forall s2 Str :: {mapHas_Map_Str_Bytes(data.WithdrawAddresses, s2)} mapHas_Map_Str_Bytes(data.WithdrawAddresses, s2) && s2 != s ==> bech32Decode(s2) != bech32Decode(s))
 //@      ==> raw[KWAddr(bech32Decode(s))] == mapGet_Map_Str_Bytes(data.WithdrawAddresses, s)
@@ -578,3 +580,6 @@ package service
 //@      (forall id Bytes :: {raw[KCtx(id)]} (forall s Str :: {mapHas_Map_Str_RequestContext(data.RequestContexts, s)} mapHas_Map_Str_RequestContext(data.RequestContexts, s) ==> hexDecode(s) != id) ==> raw[KCtx(id)] == old(raw)[KCtx(id)])
 //@ ensures [C19] definitions_bindings_price_terms_and_indexes_imported: forall k Key :: {raw[k]} !is_KWAddr(k) && !is_KCtx(k) ==>
 //@      raw[k] == wrBinds(wrDefs(old(raw), data.Definitions, len(data.Definitions)), data.Bindings, len(data.Bindings))[k]
+//@ ensures [C19,C16,C11,C01] no_runtime_records_when_started_on_an_empty_store: emptyStore(old(raw)) ==> noRuntimeRecords(raw)
+//@ ensures [C19,C09,C11] every_imported_context_is_paused_with_its_batch_completed: emptyStore(old(raw)) ==> (forall id Bytes :: {raw[KCtx(id)]} ctxFound(raw, id) ==>
+//@      ctxOf(raw, id).State == PAUSED && ctxOf(raw, id).BatchState == BATCHCOMPLETED)
